@@ -682,3 +682,253 @@ pub fn c19_atomicity_replay(_v: &serde_json::Value) -> CaseResult {
         None => Ok(CaseOk::new()),
     }
 }
+
+// ---------------------------------------------------------------------------------------------
+// isolation: one map, whoever writes to it. A client write acknowledged while a transaction is
+// running must not be lost when the transaction ends; two transactions from two threads must
+// not lose each other's work.
+
+extern "C" fn apply_reg(i: u16, v: u16, db: *mut rodbus_ffi::Database, _ctx: *mut c_void) -> ffi::WriteResult {
+    unsafe {
+        if ffi::rodbus_database_update_holding_register(db, i, v) {
+            ffi::WriteResultFields { success: true, exception: ffi::ModbusException::IllegalFunction, raw_exception: 0 }.into()
+        } else {
+            ffi::WriteResultFields { success: false, exception: ffi::ModbusException::IllegalDataAddress, raw_exception: 0 }.into()
+        }
+    }
+}
+
+struct SlowTx {
+    value: AtomicU64,
+    inside: AtomicBool,
+    client_done: AtomicBool,
+}
+
+extern "C" fn slow_tx(db: *mut rodbus_ffi::Database, ctx: *mut c_void) {
+    unsafe {
+        let c = &*(ctx as *const SlowTx);
+        let v = c.value.load(Ordering::SeqCst) as u16;
+        ffi::rodbus_database_update_holding_register(db, 0, v);
+        c.inside.store(true, Ordering::SeqCst);
+        // give a concurrent client write the chance to be acknowledged while this transaction is
+        // still running (an implementation that serialises them simply makes it wait)
+        let t0 = Instant::now();
+        while !c.client_done.load(Ordering::SeqCst) && t0.elapsed() < Duration::from_millis(25) {
+            std::thread::sleep(Duration::from_micros(200));
+        }
+        ffi::rodbus_database_update_holding_register(db, 2, v);
+        c.inside.store(false, Ordering::SeqCst);
+    }
+}
+
+extern "C" fn incr_tx(db: *mut rodbus_ffi::Database, _ctx: *mut c_void) {
+    unsafe {
+        let mut r = 0u16;
+        if ffi::rodbus_database_get_holding_register(db, 3, &mut r) == 0 {
+            // widen the window between read and write a little
+            std::thread::yield_now();
+            ffi::rodbus_database_update_holding_register(db, 3, r.wrapping_add(1));
+        }
+    }
+}
+
+pub fn c19_isolation(ctx: &Ctx) -> SearchReport {
+    let mut rep = SearchReport::empty(
+        "c19_isolation",
+        "one map, whoever writes: (a) rounds in which a transaction (holding 0 and 2 := k) is kept open for up to 25 ms while a client writes holding 1 := k through the write handler (which updates the database); after both have finished a read of 0..3 must return [k, k, k] - an acknowledged client write is never lost; (b) two threads run N increment transactions each (get + update of holding 3): the final value is 2N. Non-trivial (a) = rounds in which the client write was submitted while the transaction was open.",
+    );
+    let rounds: u64 = match ctx.tier {
+        Tier::Quick => 40,
+        Tier::Thorough => 600,
+    };
+    let n4 = Box::leak(Box::new(4u16));
+    let rt = match FfiRuntime::new(2) {
+        Ok(r) => r,
+        Err(e) => {
+            rep.health_errors.push(e);
+            return rep;
+        }
+    };
+    let (server, port) = unsafe {
+        let map = ffi::rodbus_device_map_create();
+        let handler = ffi::WriteHandler {
+            write_single_coil: Some(w_coil),
+            write_single_register: Some(apply_reg),
+            write_multiple_coils: None,
+            write_multiple_registers: None,
+            on_destroy: Some(noop_destroy),
+            ctx: std::ptr::null_mut(),
+        };
+        let cfg = ffi::DatabaseCallback {
+            callback: Some(init_regs),
+            on_destroy: Some(noop_destroy),
+            ctx: n4 as *mut u16 as *mut c_void,
+        };
+        ffi::rodbus_device_map_add_endpoint(map, 1, handler, cfg);
+        let filter = ffi::rodbus_address_filter_any();
+        let mut out: *mut rodbus_ffi::Server = std::ptr::null_mut();
+        let mut port = 0;
+        for _ in 0..8 {
+            port = free_port();
+            let ip = cstr("127.0.0.1");
+            let rc = ffi::rodbus_server_create_tcp(rt.0, ip.as_ptr(), port, filter, 8, map, decode_level(0, 0, 0), &mut out);
+            if rc == 0 && !out.is_null() {
+                break;
+            }
+        }
+        ffi::rodbus_address_filter_destroy(filter);
+        ffi::rodbus_device_map_destroy(map);
+        (out, port)
+    };
+    if server.is_null() {
+        rep.health_errors.push("INFRA: could not create the server".to_string());
+        return rep;
+    }
+    struct ServerPtr(*mut rodbus_ffi::Server);
+    unsafe impl Send for ServerPtr {}
+    unsafe impl Sync for ServerPtr {}
+    let sp = Arc::new(ServerPtr(server));
+    let fail = |rep: &mut SearchReport, m: String, c: serde_json::Value| {
+        rep.failure = Some(Failure {
+            message: m,
+            case: c,
+            hang: false,
+        });
+    };
+    // ---- (a)
+    let mut s = match TcpStream::connect(("127.0.0.1", port)) {
+        Ok(s) => s,
+        Err(e) => {
+            rep.health_errors.push(format!("INFRA: connect {}", e));
+            unsafe { ffi::rodbus_server_destroy(server) };
+            return rep;
+        }
+    };
+    s.set_nodelay(true).ok();
+    let mut during = 0u64;
+    for k in 1..=rounds {
+        let st = Arc::new(SlowTx {
+            value: AtomicU64::new(k),
+            inside: AtomicBool::new(false),
+            client_done: AtomicBool::new(false),
+        });
+        let st2 = st.clone();
+        let sp2 = sp.clone();
+        let txn = std::thread::spawn(move || {
+            let cb = ffi::DatabaseCallback {
+                callback: Some(slow_tx),
+                on_destroy: Some(noop_destroy),
+                ctx: Arc::as_ptr(&st2) as *mut c_void,
+            };
+            unsafe { ffi::rodbus_server_update_database(sp2.0, 1, cb) }
+        });
+        // wait until the transaction is open, then write
+        let t0 = Instant::now();
+        while !st.inside.load(Ordering::SeqCst) && t0.elapsed() < Duration::from_millis(500) {
+            std::thread::sleep(Duration::from_micros(100));
+        }
+        let was_open = st.inside.load(Ordering::SeqCst);
+        let ack = request(&mut s, k as u16, &[6, 0, 1, (k >> 8) as u8, k as u8]);
+        st.client_done.store(true, Ordering::SeqCst);
+        let rc = txn.join().unwrap_or(-1);
+        rep.stats.evaluations += 1;
+        let case = json!({"scenario": "client write during an open transaction", "round": k});
+        if rc != 0 {
+            fail(&mut rep, format!("server_update_database returned {}", rc), case);
+            break;
+        }
+        match ack {
+            Ok(p) if p == vec![6, 0, 1, (k >> 8) as u8, k as u8] => {}
+            other => {
+                fail(&mut rep, format!("round {}: write single register was answered {:02X?}", k, other), case);
+                break;
+            }
+        }
+        if was_open {
+            during += 1;
+        }
+        let kk = k as u16;
+        match request(&mut s, 0x8000 | kk, &[3, 0, 0, 0, 3]) {
+            Ok(p) => {
+                let want = vec![3, 6, (kk >> 8) as u8, kk as u8, (kk >> 8) as u8, kk as u8, (kk >> 8) as u8, kk as u8];
+                if p != want {
+                    let vals: Vec<u16> = p.get(2..).unwrap_or(&[]).chunks(2).filter(|c| c.len() == 2).map(|c| ((c[0] as u16) << 8) | c[1] as u16).collect();
+                    fail(
+                        &mut rep,
+                        format!(
+                            "round {}: the transaction set registers 0 and 2 to {}, a client write of register 1 := {} was acknowledged while the transaction was running; afterwards the registers read {:?}",
+                            k, k, k, vals
+                        ),
+                        case,
+                    );
+                    break;
+                }
+            }
+            Err(e) => {
+                fail(&mut rep, format!("round {}: read failed: {}", k, e), case);
+                break;
+            }
+        }
+        rep.stats.nontrivial_total += was_open as u64;
+        rep.stats.distinct.insert(k);
+    }
+    rep.stats.labels.insert("client_write_submitted_while_transaction_open".to_string(), during);
+    // ---- (b)
+    if rep.failure.is_none() {
+        let n = rounds * 5;
+        let mut threads = Vec::new();
+        for _ in 0..2 {
+            let sp2 = sp.clone();
+            threads.push(std::thread::spawn(move || {
+                for _ in 0..n {
+                    let cb = ffi::DatabaseCallback {
+                        callback: Some(incr_tx),
+                        on_destroy: Some(noop_destroy),
+                        ctx: std::ptr::null_mut(),
+                    };
+                    unsafe { ffi::rodbus_server_update_database(sp2.0, 1, cb) };
+                }
+            }));
+        }
+        for t in threads {
+            let _ = t.join();
+        }
+        rep.stats.evaluations += 2 * n;
+        match request(&mut s, 7, &[3, 0, 3, 0, 1]) {
+            Ok(p) if p.len() == 4 => {
+                let v = ((p[2] as u16) << 8) | p[3] as u16;
+                if v as u64 != (2 * n) % 65536 {
+                    fail(
+                        &mut rep,
+                        format!("two threads ran {} increment transactions each on register 3: it reads {}, expected {}", n, v, 2 * n),
+                        json!({"scenario": "concurrent increment transactions", "per_thread": n}),
+                    );
+                }
+            }
+            other => fail(&mut rep, format!("read of register 3 answered {:02X?}", other), json!({"scenario": "concurrent increment transactions"})),
+        }
+        rep.stats.labels.insert("increment_transactions".to_string(), 2 * n);
+    }
+    drop(s);
+    unsafe { ffi::rodbus_server_destroy(server) };
+    drop(rt);
+    if rep.failure.is_none() && during < rounds / 2 {
+        rep.health_errors.push(format!("c19_isolation: only {} of {} client writes were submitted while the transaction was open (generator health)", during, rounds));
+    }
+    rep.stats.samples.push(json!({"scenario": "client write during an open transaction", "registers": [0, 1, 2]}));
+    rep
+}
+
+pub fn c19_isolation_replay(_v: &serde_json::Value) -> CaseResult {
+    let ctx = Ctx {
+        tier: Tier::Quick,
+        seed: 1,
+        scale: 1.0,
+        threads: 4,
+        verif_dir: std::path::PathBuf::from("/verif"),
+    };
+    match c19_isolation(&ctx).failure {
+        Some(f) => Err(f.message),
+        None => Ok(CaseOk::new()),
+    }
+}
